@@ -23,7 +23,7 @@ pub fn truth_table(shared: &SharedReport) {
     for k in 0..=3usize {
         for code in 0..3usize.pow(k as u32) {
             let props: Vec<(Expectation, u8)> = (0..k).map(|i| (exps[code / 3usize.pow(i as u32) % 3].clone(), 0u8)).collect();
-            let m = GraphModel { succ: vec![vec![]], inits: vec![0], boundary: 1, props: props.clone(), panic_on: None };
+            let m = GraphModel { succ: vec![vec![]], inits: vec![0], boundary: 1, props: props.clone(), panic_on: None, panic_thread: None };
             let real_props = m.properties();
             for dsub in 0..(1u8 << k) {
                 let d: BTreeSet<u8> = (0..k as u8).filter(|i| (dsub >> i) & 1 == 1).collect();
